@@ -69,9 +69,20 @@ func newDataStoreSet(l lane.Lane, basePath string, phook *DispatchHook) *dataSto
 }
 
 func (dss *dataStoreSet) save(l lane.Lane) error {
+	// collect the databases under the table lock (a SELECT may add one at any
+	// time), then save each under its own lock
+	dss.mu.Lock()
+	indexes := make([]int, 0, len(dss.dbs))
+	all := make([]*dataStore, 0, len(dss.dbs))
 	for index, ds := range dss.dbs {
+		indexes = append(indexes, index)
+		all = append(all, ds)
+	}
+	dss.mu.Unlock()
+
+	for i, ds := range all {
 		dsc := ds.newDataStoreCommand()
-		err := dsc.save(l, dss.dataStoreFileName(index))
+		err := dsc.save(l, dss.dataStoreFileName(indexes[i]))
 		if err != nil {
 			return err
 		}
@@ -161,11 +172,12 @@ func (dss *dataStoreSet) getUser(userName string) (dsu *dataStoreUser, exists bo
 
 func (dss *dataStoreSet) dbSize(index int) (size respInt, valid bool) {
 	dss.mu.Lock()
-	defer dss.mu.Unlock()
-
 	ds, exists := dss.dbs[index]
+	dss.mu.Unlock()
+
 	if exists {
-		size = respInt(ds.data.count)
+		// the keys are counted under the database's own lock
+		size = respInt(ds.newDataStoreCommand().liveKeyCount())
 		valid = true
 	}
 
